@@ -106,6 +106,11 @@ pub enum Ev {
     ValBlock { inner: Seq<BItem>, in_calc: Option<bool> },
     /// add_warning
     Warn { kind: ParseErrorKind, start: Position, end: Position },
+    /// parse_rules over the content of the block just opened (unit CSSATSTEP)
+    RuleList { inner: Seq<BItem> },
+    /// wrap_at_rule_output: the at-rule's own text goes on / comes off the chain of enclosing at-rules (unit CSSATSTEP)
+    WrapBegin { text: Seq<char> },
+    WrapEnd,
 }
 pub open spec fn is_opener(t: TokV) -> bool { t is CurlyBracketBlock || t is SquareBracketBlock || t is ParenthesisBlock || t is Function }
 pub open spec fn closer_of(t: TokV) -> TokV {
